@@ -200,6 +200,8 @@ def gen_steps(r, cols: Dict[str, str], tables: Dict[str, Dict[str, str]], max_st
                 expr = "_count()"
                 # _count in a window is a row number: needs an order; emit as ordered window instead
                 continue
+            elif fn in ("sum", "max") and r.random() < 0.2:
+                expr = f"({r.randrange(1, 4)}).{fn}()"  # constant argument: the Pandas executor parks it in a scratch column
             else:
                 expr = f"{r.choice([c for c in nums])}.{fn}()"
             steps.append({"t": "extend", "ops": {new: expr}, "partition_by": part})
@@ -220,6 +222,8 @@ def gen_steps(r, cols: Dict[str, str], tables: Dict[str, Dict[str, str]], max_st
             v = r.choice(nums)
             if fn == "_row_number":
                 expr = "_row_number()"
+            elif fn == "cumsum" and r.random() < 0.2:
+                expr = "(1).cumsum()"
             elif fn == "shift":
                 expr = f"{v}.shift({r.choice(['', '1', '2', '-1'])})".replace("shift()", "shift()")
             else:
@@ -310,6 +314,17 @@ def gen_steps(r, cols: Dict[str, str], tables: Dict[str, Dict[str, str]], max_st
                 if st["limit"] == 0:
                     st["limit"] = 1
             steps.append(st)
+        elif kind == "natural_join" and depth == 0 and tables and r.random() < 0.12:
+            # key-less (cross) join: the Pandas executor joins on a scratch column it adds to both sides
+            tn = r.choice(sorted(tables))
+            c = r.choice(sorted(tables[tn]))
+            newc = _fresh(cols, c + "x")
+            steps.append({"t": "natural_join", "jointype": "CROSS", "on": [],
+                          "b": {"src": tn, "steps": [{"t": "select_columns", "cols": [c]},
+                                                       {"t": "rename_columns", "map": {newc: c}}]}})
+            k0 = tables[tn][c]
+            cols = {cc: ("int" if kk == "key" else kk) for cc, kk in cols.items()}
+            cols[newc] = "int" if k0 == "key" else k0
         elif kind == "natural_join" and depth == 0 and tables:
             tn = r.choice(sorted(tables))
             rcols0 = tables[tn]
